@@ -160,7 +160,7 @@ def work_c17(prop, tier, seed, widx, nworkers):
                     t0 = time.time()
                     try:
                         res = loop.run_until_complete(asyncio.wait_for(
-                            chart.run(pipeline_id='r0', input_kwargs={'x': ('IN', 'r0', val)}), timeout=20))
+                            chart.run(pipeline_id='r0', input_kwargs=dict({'x': ('IN', 'r0', val)}, **(v.get('extra_inputs') or {}))), timeout=20))
                     except asyncio.TimeoutError:
                         # wall-clock watchdog: inconclusive for this run (never a verdict); skip the program
                         acc.counters['watchdog_timeouts'] = acc.counters.get('watchdog_timeouts', 0) + 1
@@ -427,7 +427,7 @@ def replay_case(case):
         chart = PipelineChart('rv', dag)
         exc = res = None
         try:
-            res = asyncio.run(asyncio.wait_for(chart.run(pipeline_id='r0', input_kwargs={'x': ('IN', 'r0', case['val'])}), 60))
+            res = asyncio.run(asyncio.wait_for(chart.run(pipeline_id='r0', input_kwargs=dict({'x': ('IN', 'r0', case['val'])}, **(prog.get('extra_inputs') or {}))), 60))
         except BaseException as e:  # noqa: BLE001
             exc = e
         f = judge(ref, outcome_class(res, exc))
